@@ -233,7 +233,23 @@ Definition mon16N (inp obs : sx) : list Z :=
   monN_data (n_tree c) (n_meth c) (n_obj c) (dec_bytes (sx_nth obs 0)) (sx_Z (sx_nth obs 1))
             (dec_ctree tree_depth_bound (sx_nth obs 5)).
 
+(** The monitor the judge applies.  Clause 2 has one exception, the one [mon16] has
+    too: when the digest states a size smaller than the object the tree carries, data
+    handed over TOGETHER with the handler's error already exceeds that size, and a
+    streaming consumer gets the Source's size-mismatch code instead of the handler's
+    error ([casValidatingReader] looks at the size before it looks at the error) —
+    proved to be what the model does ([monitor_clause_2_fires_on_the_model],
+    Props/C16N.v) and replayed on the real code.  [mon16Nx] reports a subset of
+    [mon16N], so every silence theorem about [mon16N] carries over
+    ([mon16Nx_incl], Props/C16N.v). *)
+Definition toolong16N (inp obs : sx) : bool :=
+  let c := dec_case16N inp in
+  streamingb (n_meth c) && (sx_Z (sx_nth obs 1) =? g_code (n_cfg c)) && (g_size (n_cfg c) <? lenN (n_obj c))%N.
+Definition mon16Nx (inp obs : sx) : list Z :=
+  let v := mon16N inp obs in
+  if toolong16N inp obs then filter (fun z => negb (z =? 2)) v else v.
+
 Definition judge16N (inp obs : sx) : sx :=
   let m := run16N inp in
-  let v := mon16N inp obs in
+  let v := mon16Nx inp obs in
   verdict (sx_eqb m obs) (negb (match v with [] => true | _ => false end)) m (of_Zs v).
